@@ -49,6 +49,7 @@ class Knobs:
         self.always_connect = None
         self.namespaces = None          # 'star' | list | None = random
         self.serializer = 'default'
+        self.nested_ack = 0.0
         self.__dict__.update(kw)
 
 
@@ -234,7 +235,8 @@ def gen_op(rng, k, sh, kind):
         e, ns, sid = pick_sid(rng, sh)
         pid = rng.choice([0, 1, 1, 2, 3, 5, None])
         data = rng.choice([[], ['ok'], [1, 2], [{'a': 1}], None, 'str', {'k': 'v'}])
-        return [('msg', e, eio_decode(frame(3, ns, pid, data)))]
+        kind_ = 'msg_nested' if rng.random() < k.nested_ack else 'msg'
+        return [(kind_, e, eio_decode(frame(3, ns, pid, data)))]
     if kind in ('emit', 'emit_cb'):
         e, ns, sid = pick_sid(rng, sh)
         tgt = rng.random()
